@@ -534,6 +534,10 @@ def c17(res, scenario) -> list[Violation]:
             len(executed) < upto and not any(e[1] in ("cb_raise", "interrupt", "savecond_raise") for e in ev) \
             and scenario.get("max_uptime", "inf") == "inf":
         out.append(Violation("c17:lost", f"accepted {accepted[:upto]} but executed only {executed}", case))
+    if (res.sched_abort or "").startswith("starved"):
+        out.append(Violation("c17:accepted-never-executed",
+                             f"the control loop went on ticking but left accepted commands in the queue - {res.sched_abort}",
+                             case))
     # "executed" means carried out: every command the control thread takes off the queue is followed -
     # before it takes the next one or the tick ends - by the call that carries it out
     CALL = {"PAUSE": "try_pause_call", "RESUME": "resume_call", "SAVE_STATE": "save_state_call",
